@@ -392,6 +392,7 @@ static std::string closes_str()
 
 static std::string run_dl(const std::string& ops)
 {
+    std::vector<std::pair<nitro::dl::exception, std::string>> kept;
     using Sym = nitro::dl::symbol<int(int, int)>;
     using Obj = std::variant<std::monostate, nitro::dl::dl, Sym>;
     g_open_ids.clear();
@@ -477,8 +478,21 @@ static std::string run_dl(const std::string& ops)
                 }
                 catch (nitro::dl::exception& e)
                 {
-                    res = e.dlerror().empty() || std::string(e.what()).empty() ? "raise-without-diagnostic" : "raise";
+                    std::string diag = e.dlerror();
+                    res = diag.empty() || std::string(e.what()).empty() ? "raise-without-diagnostic" : "raise";
+                    // the diagnostic names what was missing, and it is the exception's own: kept copies still carry it
+                    // after later loader calls (a 'try the candidates, report all errors at the end' loop)
+                    const char* missing = t[0] == "openbad" ? "no-such-library" : "nv_no_such_symbol";
+                    if (res == "raise" && diag.find(missing) == std::string::npos)
+                        res = "raise-with-a-diagnostic-about-something-else";
+                    kept.emplace_back(e, diag);
                 }
+                for (auto& k : kept)
+                    if (std::string(k.first.dlerror()) != k.second)
+                    {
+                        res += " WRONG(diagnostic-of-a-kept-exception-changed)";
+                        break;
+                    }
                 out += res + " c=" + closes_str() + ";";
             }
         for (auto& p : objs)
